@@ -9,6 +9,10 @@ LEN  (engine E3, numpy-object concolic + z3): the real `_compute_pathlengths` /
      `swc_to_jaxley` run on symbolic coordinates; each branch length must equal the sum of
      the traced segment lengths under the documented conventions (single-point soma -> 2r,
      soma->neurite gap dropped).
+PIPE (E3): the whole real `swc_to_jaxley` (np.loadtxt stubbed to return the rows with symbolic x,y,z,r) runs
+     concolically; per path z3 decides that every returned branch length is the traced length of its
+     section with exactly-zero sections set to 1 um; path conditions are kept polynomial by exact
+     sqrt-elimination rewrites so that z3 itself finds inputs for uncovered paths (DART), e.g. coinciding points.
 RAD  (E3): the real `_radius_generating_fns` + `build_radiuses_from_xyzr` run on symbolic
      radii over enumerated concrete segment-length vectors (np.digitize needs concrete bins);
      comparisons are concolic (DART: path conditions recorded, uncovered paths obtained from
@@ -73,9 +77,21 @@ FN = '''def {name}(types: List[int]) -> bool:
 
 
 def ensure_venv():
+    """overlay venv with crosshair-tool (setup.sh); built once, under a lock (workers start in parallel)"""
+    import fcntl
     py = os.path.join(ROOT, ".venv", "bin", "python")
-    if not os.path.exists(py):
-        subprocess.run(["bash", os.path.join(ROOT, "setup.sh")], check=True, capture_output=True)
+    def ready():
+        return os.path.exists(py) and subprocess.run([py, "-c", "import crosshair"], capture_output=True).returncode == 0
+    if ready():
+        return py
+    os.makedirs(os.path.join(ROOT, "work"), exist_ok=True)
+    with open(os.path.join(ROOT, "work", ".venv.lock"), "w") as lk:
+        fcntl.flock(lk, fcntl.LOCK_EX)
+        try:
+            if not ready():
+                subprocess.run(["bash", os.path.join(ROOT, "setup.sh")], check=True, capture_output=True)
+        finally:
+            fcntl.flock(lk, fcntl.LOCK_UN)
     return py
 
 
@@ -95,7 +111,7 @@ def run_crosshair(inst):
     with tempfile.TemporaryDirectory(prefix="vfch_") as td:
         path = os.path.join(td, "ch_inst.py")
         open(path, "w").write(src)
-        env = dict(os.environ, PYTHONPATH=f"{ROOT}:/repo", JAX_PLATFORMS="cpu")
+        env = dict(os.environ, PYTHONPATH=f"{ROOT}:{harness.REPO}", JAX_PLATFORMS="cpu")
         t0 = time.time()
         pr = subprocess.run([py, "-m", "crosshair", "check", "--report_all", "--per_condition_timeout", str(timeout), path],
                             capture_output=True, text=True, env=env, timeout=timeout * 8 + 120)
@@ -145,11 +161,45 @@ def _replay_topology(parents, types, fn):
 
 
 # ------------------------------------------------------------------ E3: concolic numpy-object
+def _is_sqrt(n): return n.op == "uf" and n.args[0] == "sqrt"
+
+
+def _desqrt(c):
+    """Exact rewrites that remove sqrt from a path condition (the argument of every sqrt here is a sum of squares >= 0):
+    sqrt(a) ~ k  <=>  a ~ k^2 for a constant k >= 0, and  sum_i sqrt(a_i) = 0  <=>  all a_i = 0.
+    Path conditions then stay polynomial, which keeps the DART coverage queries decidable."""
+    if c.op not in ("<", "<=", "="):
+        return c
+    x, y = c.args
+    if c.op == "=":
+        if sym.isc(x): x, y = y, x
+        if sym.isc(y) and y.args[0] == 0:
+            terms = x.args if x.op == "+" else (x,)
+            if all(_is_sqrt(t) for t in terms):
+                out = sym.bconst(True)
+                for t in terms: out = sym.band(out, sym.eq(t.args[1], const(0)))
+                return out
+        if sym.isc(y) and _is_sqrt(x) and y.args[0] >= 0:
+            return sym.eq(x.args[1], const(y.args[0] * y.args[0]))
+        return c
+    mk = sym.lt if c.op == "<" else sym.le
+    if _is_sqrt(x) and sym.isc(y):
+        k = y.args[0]
+        if k < 0 or (k == 0 and c.op == "<"): return sym.bconst(False)
+        return mk(x.args[1], const(k * k))
+    if sym.isc(x) and _is_sqrt(y):
+        k = x.args[0]
+        if k < 0: return sym.bconst(True)
+        return mk(const(k * k), y.args[1])
+    return c
+
+
 class Concolic:
     """comparisons on DAG nodes return Python bools under a witness valuation and record the
     path condition (DART)"""
     env = None
     path = None
+    _orig_eq = None
 
     @classmethod
     def install(cls):
@@ -157,15 +207,28 @@ class Concolic:
             def cmp_(a, b):
                 c = fn(a, lift(b))
                 val = bool(sym.evalf(c, cls.env))
+                c = _desqrt(c)
                 cls.path.append(c if val else sym.bnot(c))
                 return val
             return cmp_
         N.__lt__ = mk(sym.lt); N.__le__ = mk(sym.le); N.__gt__ = mk(sym.gt); N.__ge__ = mk(sym.ge)
+        # `x == 0.0` against a plain number is a concolic comparison too; node-vs-node stays identity (hash-consing)
+        if cls._orig_eq is None:
+            cls._orig_eq = N.__eq__
+        ceq = mk(sym.eq)
+        def eq_(a, b):
+            if isinstance(b, N) or not isinstance(b, (int, float, np.integer, np.floating)) or a.is_bool:
+                return a is b
+            return ceq(a, b)
+        N.__eq__ = eq_
+        N.__ne__ = lambda a, b: not eq_(a, b)
 
     @classmethod
     def uninstall(cls):
-        for k in ("__lt__", "__le__", "__gt__", "__ge__"):
+        for k in ("__lt__", "__le__", "__gt__", "__ge__", "__ne__"):
             if k in N.__dict__: delattr(N, k)
+        if cls._orig_eq is not None:
+            N.__eq__ = cls._orig_eq
 
 
 GEOMS = {
@@ -174,6 +237,10 @@ GEOMS = {
     "sps_two": [(1, 1, 0, 0, 0, -1), (2, 3, 6, 0, 0, 1), (3, 3, 16, 0, 0, 2), (4, 3, 17, 0, 0, 3), (5, 4, 0, 8, 0, 1), (6, 4, 0, 38, 0, 5)],
     "type_change": [(1, 1, 0, 0, 0, -1), (2, 1, 5, 0, 0, 1), (3, 3, 15, 0, 0, 2), (4, 3, 25, 0, 0, 3), (5, 4, 35, 0, 0, 4), (6, 4, 36, 0, 0, 5), (7, 4, 66, 0, 0, 6)],
     "zero_len": [(1, 1, 0, 0, 0, -1), (2, 1, 4, 0, 0, 1), (3, 3, 4, 0, 0, 2), (4, 3, 4, 0, 0, 3), (5, 3, 9, 0, 0, 4)],
+    # sections of traced length exactly 0 (documented: set to 1 um): a one-point stub that bifurcates at once behind a
+    # single-point soma (the soma->neurite gap is dropped), and a duplicated point that is itself a branch point
+    "zero_section_stub": [(1, 1, 0, 0, 0, -1), (2, 3, 5, 0, 0, 1), (3, 3, 15, 0, 0, 2), (4, 3, 25, 0, 0, 3), (5, 3, 5, 10, 0, 2), (6, 3, 5, 30, 0, 5)],
+    "zero_section_dup": [(1, 1, 0, 0, 0, -1), (2, 1, 10, 0, 0, 1), (3, 3, 20, 0, 0, 2), (4, 3, 30, 0, 0, 3), (5, 3, 30, 0, 0, 4), (6, 3, 40, 0, 0, 5), (7, 3, 30, 10, 0, 5), (8, 3, 30, -20, 0, 4)],
     "dense_line": [(1, 1, 0, 0, 0, -1), (2, 1, 10, 0, 0, 1)] + [(k, 3, 10 * (k - 1), 0, 0, k - 1) for k in range(3, 9)],
 }
 
@@ -250,6 +317,11 @@ def run_geometry(inst):
                     res["inconclusive"].append({"instance": inst, "query": "LEN", "reason": "model not reproduced"})
             elif r.status != "unsat":
                 res["inconclusive"].append({"instance": inst, "query": "LEN", "reason": r.status})
+    # ---------------------------------------------------------------- PIPE: the whole swc_to_jaxley on symbolic x,y,z,r
+    try:
+        _pipe(inst, rows, content, X, sps, res, viol, timeout)
+    except interp.NotEncodable as ex:
+        res["inconclusive"].append({"instance": inst, "query": "PIPE", "reason": str(ex)[:160]})
     # ---------------------------------------------------------------- RAD: symbolic radii, concrete lengths
     each_length = cu._compute_pathlengths([list(b) for b in branches], content[:, 1:6].copy(), is_single_point_soma=sps)
     R = [var(f"r{i+1}") for i in range(n)]
@@ -335,6 +407,150 @@ def run_geometry(inst):
     res["stats"] = dict(smt.STATS); res["query_log"] = list(smt.QUERY_LOG)
     res["sample"] = {"instance": inst, "branches": [list(map(int, b)) for b in branches], "parents": [int(p) for p in parents]}
     return res
+
+
+def _traced_length_refs(branches, types, sps, X):
+    """documented conventions: one traced point -> 2r; the gap between a single-point soma and the first neurite point is dropped"""
+    refs = []
+    for b in branches:
+        pts = [int(p) - 1 for p in b]
+        if len(pts) == 1:
+            refs.append(lift(2) * X[(pts[0], "r")]); continue
+        ref = lift(0)
+        for a_, c_ in zip(pts[:-1], pts[1:]):
+            if sps and a_ == 0 and types[a_] == 1 and types[c_] != 1 and a_ == pts[0]:
+                continue
+            d2 = lift(0)
+            for c in "xyz":
+                dd = X[(c_, c)] - X[(a_, c)]
+                d2 = d2 + dd * dd
+            ref = ref + sym.uf("sqrt", d2)
+        refs.append(ref)
+    return refs
+
+
+def _float_lengths(rows_f, branches, sps):
+    """float oracle of the same conventions, incl. zero-length sections -> 1 um"""
+    out = []
+    for b in branches:
+        pts = [int(p) - 1 for p in b]
+        if len(pts) == 1:
+            out.append(2.0 * rows_f[pts[0]][5]); continue
+        tot = 0.0
+        for a_, c_ in zip(pts[:-1], pts[1:]):
+            if sps and a_ == 0 and rows_f[a_][1] == 1 and rows_f[c_][1] != 1 and a_ == pts[0]:
+                continue
+            tot += float(np.sqrt(sum((rows_f[c_][k] - rows_f[a_][k]) ** 2 for k in (2, 3, 4))))
+        out.append(tot if tot != 0.0 else 1.0)
+    return out
+
+
+def _write_swc(rows_f):
+    f = tempfile.NamedTemporaryFile("w", suffix=".swc", delete=False)
+    for r in rows_f:
+        f.write(f"{int(r[0])} {int(r[1])} {r[2]!r} {r[3]!r} {r[4]!r} {r[5]!r} {int(r[6])}\n")
+    f.close()
+    return f.name
+
+
+def _pipe(inst, rows, content, X, sps, res, viol, timeout):
+    """PIPE: the real `swc_to_jaxley` (file parsing stubbed: np.loadtxt returns the rows with symbolic x,y,z,r)
+    executed concolically; per explored path z3 decides that every returned branch length is the traced length of
+    its section, with exactly-zero sections set to 1 um; uncovered paths are obtained from z3 (DART)."""
+    import warnings
+    from jaxley.io import swc as swc_mod
+    from jaxley.utils import cell_utils as cu
+    n = len(rows)
+    types = content[:, 1]
+    branches, _ = cu._split_into_branches_and_sort(content.copy(), max_branch_len=None, is_single_point_soma=sps, sort=True)
+    refs = _traced_length_refs(branches, types, sps, X)
+    symc = np.empty((n, 7), dtype=object)
+    for i in range(n):
+        symc[i, 0], symc[i, 1], symc[i, 6] = float(content[i, 0]), float(content[i, 1]), float(content[i, 6])
+        for k, c in enumerate("xyzr"): symc[i, 2 + k] = X[(i, c)]
+    base = {}
+    for i in range(n):
+        for k, c in enumerate("xyz"): base[f"{c}{i+1}"] = float(rows[i][2 + k])
+        base[f"r{i+1}"] = 0.5 + 0.25 * i
+    names = sorted(base)
+    saved = np.loadtxt
+    explored, pending, rounds = [], [base], 0
+    budget = 6 if harness.tier() == "quick" else 24
+    Concolic.install()
+    try:
+        while pending and rounds < budget:
+            env = pending.pop(); rounds += 1
+            Concolic.env, Concolic.path = env, []
+            np.loadtxt = lambda *a, **k: symc.copy()
+            try:
+                with warnings.catch_warnings():
+                    warnings.simplefilter("ignore")
+                    out = swc_mod.swc_to_jaxley("<symbolic>", max_branch_len=None, sort=True, num_lines=None)
+            except Exception as ex:
+                np.loadtxt = saved
+                raise interp.NotEncodable(f"swc_to_jaxley does not run on symbolic rows: {type(ex).__name__}: {str(ex)[:100]}")
+            finally:
+                np.loadtxt = saved
+            pc = list(Concolic.path)
+            got = [lift(x_) if isinstance(x_, N) else lift(float(x_)) for x_ in out[1]]
+            want = [sym.ite(_desqrt(sym.eq(r_, const(0))), const(1), r_) if not sym.isc(r_) else (const(1) if r_.args[0] == 0 else r_) for r_ in refs]
+            if len(got) == len(want) + 1:
+                want = [lift(0.1)] + want          # documented: several roots -> a padded 0.1 um root branch
+            explored.append(pc)
+            if len(got) != len(want):
+                viol("PIPE", f"swc_to_jaxley returns {len(got)} branch lengths for {len(want)} sections"); break
+            pairs = [(a_, b_) for a_, b_ in zip(got, want) if a_ is not b_]
+            res["counters"]["PIPE_paths"] = res["counters"].get("PIPE_paths", 0) + 1
+            for margin in ("witness", const("1/1000"), None):
+                if not pairs: break
+                if margin == "witness":
+                    # concolic execution: this path's own witness input satisfies its path condition by construction
+                    gv = [float(sym.evalf(a_, env)) for a_, _ in pairs]; wv = [float(sym.evalf(b_, env)) for _, b_ in pairs]
+                    if max(abs(a_ - b_) / (1 + abs(b_)) for a_, b_ in zip(gv, wv)) <= 1e-6:
+                        continue
+                    r = smt.Result("sat", dict(env), 0.0)
+                else:
+                    q = smt.Query("C16/PIPE" + ("/margin" if margin is not None else ""))
+                    for nm in names: q.bounds(nm, -1000.0, 1000.0) if nm[0] != "r" else q.bounds(nm, 0.01, 50.0)
+                    for c in pc: q.add(c)
+                    if margin is None: q.add_not_all_equal(pairs)
+                    else: q.add_any([sym.bor(sym.lt(margin, a_ - b_), sym.lt(margin, b_ - a_)) for a_, b_ in pairs])
+                    r = q.check(timeout=timeout)
+                    key = "PIPE_margin_" if margin is not None else "PIPE_"
+                    res["counters"][key + r.status] = res["counters"].get(key + r.status, 0) + 1
+                if r.has_witness:
+                    e2 = {nm: float(r.model.get(nm, env[nm])) for nm in names}
+                    rows_f = [[rows[i][0], rows[i][1], e2[f"x{i+1}"], e2[f"y{i+1}"], e2[f"z{i+1}"], e2[f"r{i+1}"], rows[i][5]] for i in range(n)]
+                    Concolic.uninstall()
+                    fname = _write_swc(rows_f)
+                    try:
+                        with warnings.catch_warnings():
+                            warnings.simplefilter("ignore")
+                            real = [float(x_) for x_ in swc_mod.swc_to_jaxley(fname, max_branch_len=None, sort=True, num_lines=None)[1]]
+                    finally:
+                        os.unlink(fname); Concolic.install()
+                    exp = _float_lengths(rows_f, branches, sps)
+                    if len(real) == len(exp) + 1: exp = [0.1] + exp
+                    if len(real) != len(exp) or max(abs(a_ - b_) / (1 + abs(b_)) for a_, b_ in zip(real, exp)) > 1e-6:
+                        viol("PIPE", f"swc_to_jaxley branch lengths {real} != traced section lengths {exp} (zero-length sections -> 1 um) for points {[(r_[2], r_[3], r_[4]) for r_ in rows_f]}")
+                        return
+                    if margin is None:
+                        res["inconclusive"].append({"instance": inst, "query": "PIPE", "reason": "model not reproduced"})
+                elif r.status != "unsat" and margin is None:
+                    res["inconclusive"].append({"instance": inst, "query": "PIPE", "reason": r.status})
+            # DART: an input outside every explored path condition?
+            qc = smt.Query("C16/PIPE/coverage")
+            for nm in names: qc.bounds(nm, -1000.0, 1000.0) if nm[0] != "r" else qc.bounds(nm, 0.01, 50.0)
+            for pc_ in explored:
+                qc.add_any([sym.bnot(c) for c in pc_]) if pc_ else qc.add("false")
+            rc = qc.check(timeout=timeout)
+            if rc.has_witness:
+                pending.append({nm: float(rc.model.get(nm, base[nm])) for nm in names})
+            elif rc.status == "unsat":
+                res["counters"]["PIPE_all_paths_covered"] = 1
+    finally:
+        np.loadtxt = saved
+        Concolic.uninstall()
 
 
 def _digitize_stub(x, bins, right=False):
@@ -502,6 +718,17 @@ def run_file(inst):
                     viol("FILE_ncomp_independent", f"total length/connectivity/groups depend on ncomp: ncomp={ncomp}: {tot} {par} vs {ref[0]} {ref[1]}")
         c1 = jx.read_swc(fname, ncomp=1)
         L1 = float(c1.nodes["length"].sum())
+        # branch lengths of the built cell against the float oracle of the documented conventions
+        from jaxley.utils import cell_utils as cu
+        rows_f = [[r[0], r[1], float(r[2]), float(r[3]), float(r[4]), float(f"{0.3 + 0.2 * r[0]:.3f}"), r[5]] for r in rows]
+        cont = np.asarray(rows_f, dtype=float)
+        sps_ = bool(cont[0, 1] == 1 and cont[1, 1] != 1)
+        br_, _ = cu._split_into_branches_and_sort(cont.copy(), max_branch_len=None, is_single_point_soma=sps_, sort=True)
+        exp = _float_lengths(rows_f, br_, sps_)
+        gotl = list(map(float, c1.nodes.groupby("global_branch_index")["length"].sum().to_numpy()))
+        if len(gotl) == len(exp) + 1: exp = [0.1] + exp
+        if len(gotl) != len(exp) or max(abs(a_ - b_) / (1 + abs(b_)) for a_, b_ in zip(gotl, exp)) > 1e-6:
+            viol("FILE_lengths", f"read_swc branch lengths {gotl} != traced section lengths {exp}")
         dense = inst["geom"] == "dense_line"
         for mbl in ((45.0, 35.0) if dense else (8.0, 15.0)):
             clause = "FILE_max_branch_len_dense" if dense else "FILE_max_branch_len"
@@ -550,6 +777,7 @@ def main():
     insts = families()
     # CrossHair conditions are sequential per instance: order long ones first
     insts.sort(key=lambda i: -len(i.get("parents", [])))
+    ensure_venv()
     for r in harness.pmap("vf.checks.c16:run_instance", insts):
         rep.merge(r)
     ntopo = sum(1 for i in insts if i["kind"] == "topo")
